@@ -2270,6 +2270,24 @@ rrul_fill_Mly(echs_instant_t *restrict tgt, size_t nti, rrulsp_t rr)
 		goto fin;
 	}
 
+	/* the times of day we stop at are exactly those congruent to the
+	 * start time modulo gcd(INTER, 1440), see if the masks admit one
+	 * of them at all, otherwise we'd be scanning until kingdom come */
+	{
+		unsigned int g = rr->inter, t;
+
+		for (unsigned int r = 1440U; r; t = g % r, g = r, r = t);
+		for (t = (H * 60U + M) % g; t < 1440U; t += g) {
+			if (H_mask & (1U << t / 60U) &&
+			    M_mask & (1ULL << t % 60U)) {
+				break;
+			}
+		}
+		if (UNLIKELY(t >= 1440U)) {
+			goto fin;
+		}
+	}
+
 	/* fill up the array the naive way */
 	for (unsigned int w = ymd_get_wday(y, m, d), maxd = __get_ndom(y, m);
 	     res < nti && y < MAX_YEAR;
